@@ -6,6 +6,9 @@ use oal_model::span::Span;
 use oal_syntax::parser::Program;
 use petgraph::algo::toposort;
 use petgraph::prelude::*;
+#[cfg(feature = "verif")]
+use oal_model::verif::ChoiceMap as HashMap;
+#[cfg(not(feature = "verif"))]
 use std::collections::HashMap;
 #[derive(Debug)]
 pub struct ModuleSet {
